@@ -8,6 +8,7 @@
 # @author Davide Brunato <brunato@sissa.it>
 #
 """A collection of additional and special token classes."""
+from copy import copy
 import math
 from collections.abc import Iterator
 from decimal import Decimal
@@ -466,7 +467,7 @@ class ParentShortcutToken(XPathToken):
         if context is None:
             raise self.missing_context()
 
-        for value in context.iter_parent():
+        for value in copy(context).iter_parent():  # the caller's focus stays where it is
             return value
         else:
             return []
